@@ -592,12 +592,42 @@ func (root *Root) resolveField(
 		var fv interface{} // field value
 		fv, ea2 = root.resolve(attr, vars, field, ft, depth)
 		ea = append(ea, ea2...)
+		if old, has := result[field.key()]; has {
+			fv = mergeResult(old, fv)
+		}
 		result[field.key()] = fv
 	}
 	if depth < MaxResolveDepth {
 		Errors(ea).in(field.key())
 	}
 	return
+}
+
+// mergeResult combines the values produced by two selections with the same
+// response key so that their sub-selections are merged instead of the later
+// one replacing the earlier one.
+func mergeResult(old, val interface{}) interface{} {
+	switch tv := val.(type) {
+	case map[string]interface{}:
+		if om, ok := old.(map[string]interface{}); ok {
+			for k, v := range tv {
+				if ov, has := om[k]; has {
+					om[k] = mergeResult(ov, v)
+				} else {
+					om[k] = v
+				}
+			}
+			return om
+		}
+	case []interface{}:
+		if ol, ok := old.([]interface{}); ok && len(ol) == len(tv) {
+			for i, v := range tv {
+				ol[i] = mergeResult(ol[i], v)
+			}
+			return ol
+		}
+	}
+	return val
 }
 
 func (root *Root) addError(f *Field, ea []error, err error) []error {
